@@ -53,10 +53,10 @@ type Solver struct {
 	log     []string // commands of the current path scope (for portfolio re-runs)
 	inScope bool
 
-	TimeoutMs int
+	TimeoutMs       int
 	pathsSinceReset int
-	OverrideMs int // one-shot cap for the next tactic query
-	tee       *os.File
+	OverrideMs      int // one-shot cap for the next tactic query
+	tee             *os.File
 
 	// statistics
 	NSat, NUnsat, NUnknown, NErrors int
@@ -624,7 +624,7 @@ func parseValues(txt string) []uint64 {
 	}
 	pos = 1
 	for pos < len(toks) && toks[pos] == "(" {
-		pos++ // (
+		pos++  // (
 		skip() // expr
 		out = append(out, readVal())
 		if pos < len(toks) && toks[pos] == ")" {
